@@ -175,6 +175,20 @@ func (b *Body) pureClosureTerm(cl *Closure, args []*T, st State) (*T, bool) {
 func (b *Body) nativeCall(v ssa.Value, key string, c *ssa.CallCommon, args []*Val, blk *ssa.BasicBlock, reach *T, st State) bool {
 	ft := b.ft
 	switch key {
+	case "reflect.DeepEqual":
+		// two byte slices: equal contents
+		if len(c.Args) == 2 {
+			ma, ok1 := c.Args[0].(*ssa.MakeInterface)
+			mb, ok2 := c.Args[1].(*ssa.MakeInterface)
+			if ok1 && ok2 && isByteSlice(ma.X.Type()) && isByteSlice(mb.X.Type()) {
+				hb := ft.region(st, "H.Bytes")
+				r := b.declVal(v)
+				ft.fact(Eq(r.T, Eq(Sel(hb, b.val(ma.X).T), Sel(hb, b.val(mb.X).T))))
+				ft.trusted["reflect.DeepEqual on two []byte (modelled natively: equal contents; nil vs empty not distinguished)"] = true
+				return true
+			}
+		}
+		return false
 	case "encoding/json.Unmarshal":
 		// the decoded value is a deterministic function of the input bytes and
 		// of the previous value of the target; err likewise
@@ -206,6 +220,35 @@ func (b *Body) nativeCall(v ssa.Value, key string, c *ssa.CallCommon, args []*Va
 		r := b.declVal(v)
 		ft.fact(Eq(r.T, A(fnName+".err", data, old)))
 		ft.trusted["encoding/json.Unmarshal (modelled natively: decoded value and error are uninterpreted functions of the input bytes and the previous target value)"] = true
+		return true
+	case "sort.Slice", "sort.SliceStable":
+		// the elements are permuted: every new element is an old one and
+		// every old element is still present; the length is unchanged
+		if len(c.Args) != 2 {
+			return false
+		}
+		mi, ok := c.Args[0].(*ssa.MakeInterface)
+		if !ok {
+			return false
+		}
+		sl, ok := types.Unalias(mi.X.Type()).Underlying().(*types.Slice)
+		if !ok || isByte(sl.Elem()) {
+			return false
+		}
+		es := ft.sortOf(sl.Elem())
+		ref := b.val(mi.X).T
+		reg := "HS." + es
+		oldc := Sel(ft.region(st, reg), ref)
+		newc := ft.fresh("sorted", "(Array Int "+es+")")
+		n := A("rlen", ref)
+		j := fmt.Sprintf("j!%d", ft.count("qv"))
+		k := fmt.Sprintf("k!%d", ft.count("qv"))
+		inr := func(x string) *T { return And(A("<=", Int(0), L(x)), A("<", L(x), n)) }
+		ft.fact(Imp(reach, Forall([][2]string{{j, "Int"}}, Imp(inr(j), Exists([][2]string{{k, "Int"}}, And(inr(k), Eq(Sel(newc, L(j)), Sel(oldc, L(k)))))), []*T{Sel(newc, L(j))})))
+		ft.fact(Imp(reach, Forall([][2]string{{k, "Int"}}, Imp(inr(k), Exists([][2]string{{j, "Int"}}, And(inr(j), Eq(Sel(newc, L(j)), Sel(oldc, L(k)))))), []*T{Sel(oldc, L(k))})))
+		ft.setRegion(st, reg, Sto(ft.region(st, reg), ref, newc))
+		b.recordWrite(blk, reg, mi.X)
+		ft.trusted["sort.Slice (modelled natively: the slice's elements are permuted; the order produced and the less function's effects are not modelled)"] = true
 		return true
 	case "slices.IndexFunc":
 		if len(args) != 2 || args[1].Clos == nil {
